@@ -1,0 +1,13 @@
+//go:build verif
+
+package ds
+
+// VerifHook is called at named yield points when the package is built with the verif tag
+// (verification harness only; nil by default).
+var VerifHook func(point string)
+
+func verifYield(point string) {
+	if h := VerifHook; h != nil {
+		h(point)
+	}
+}
